@@ -1,5 +1,8 @@
 import VecModel.Props.C09
 import VecModel.Lemmas.EMSafe
+import VecModel.Props.C04
+import VecModel.Props.C18
+import VecModel.Props.C19
 /-
   C10 — Compiled kernels never access memory outside their arrays.
   Safety theorems "Valid input → index-level kernel model returns .ok" (DESIGN.md §5 C10, §2.3).
@@ -90,5 +93,43 @@ example :
     (EM.radiusLookups ([2, 2].map (EM.radiusTable 3)) [(0, 0), (1, 3)]).toOption = some [2, 2] ∧
     (EM.radiusLookups ([2, 2].map (EM.radiusTable 3)) [(0, 4)]).toOption = none := by
   decide
+
+end VecModel.C10
+
+/-! ### Append buffers (coo_utils.py: coo_append, coo_sum_duplicates, merge_*, coo_increase_mem) — model and
+proof in Props/C04; restated as C10 obligations -/
+namespace VecModel.C10
+
+/-- every checked read/write of the index-level buffer model succeeds: any event sequence into a fresh buffer
+of any capacity ≥ 5, under any sort limit ≥ 1 (the vectorizers allocate ≥ 32), never leaves the arrays -/
+theorem coo_append_safe {lim cap : Nat} (es : List Coo.Entry) (hl : 1 ≤ lim) (hc : 5 ≤ cap)
+    (hk : ∀ e ∈ es, e.key ≠ -1) :
+    ∃ c0 c', Coo.mk cap = .ok c0 ∧ Coo.appendAll lim c0 es = .ok c' :=
+  let ⟨c0, c', h0, h1, _⟩ := C04.appendAll_refines es hl hc hk
+  ⟨c0, c', h0, h1⟩
+
+/-! ### Sparse helpers (distances.py: sparse_sum / sparse_diff / sparse_mul) — Props/C18 -/
+
+/-- the merge loops and their tail loops never index outside the result buffers of length |union| /
+|intersection| on sorted duplicate-free inputs -/
+theorem sparse_helpers_safe (ind1 : List Nat) (data1 : List Rat) (ind2 : List Nat) (data2 : List Rat)
+    (h1 : data1.length = ind1.length) (h2 : data2.length = ind2.length)
+    (s1 : Dist.StrictInc ind1) (s2 : Dist.StrictInc ind2) :
+    (∃ r, Dist.sparseSum ind1 data1 ind2 data2 = .ok r) ∧
+    (∃ r, Dist.sparseDiff ind1 data1 ind2 data2 = .ok r) ∧
+    (∃ r, Dist.sparseMul ind1 data1 ind2 data2 = .ok r) := by
+  obtain ⟨r1, e1, _⟩ := Dist.sparseSum_dense ind1 data1 ind2 data2 h1 h2 s1 s2
+  obtain ⟨r2, e2, _⟩ := Dist.sparseDiff_dense ind1 data1 ind2 data2 h1 h2 s1 s2
+  obtain ⟨r3, e3, _⟩ := Dist.sparseMul_dense ind1 data1 ind2 data2 h1 h2 s1 s2
+  exact ⟨⟨r1, e1⟩, ⟨r2, e2⟩, ⟨r3, e3⟩⟩
+
+/-! ### Sliding windows (transformers/sliding_windows.py) — Props/C19 -/
+
+/-- under the transformer's own preconditions no checked read of the sequence / sample / kernel and no
+write into the `np.empty` result buffer fails -/
+theorem sliding_windows_safe (cols : List Sliding.Col) (L w s : Nat) (sample : List Int) (K : Sliding.Mat)
+    (ncols p : Nat) (v : Rat) (hv : Sliding.Valid cols L w s sample K ncols p) :
+    ∃ buf, Sliding.slidingWindows cols L w s sample K ncols p v = .ok buf :=
+  Sliding.index_safe cols L w s sample K ncols p v hv
 
 end VecModel.C10
